@@ -393,7 +393,12 @@ static void exec_gates(const Plan &p, RunResult &r) {
             uint64_t hin[3] = {0, 0, 0};
             for (int i = 0; i < ar; i++) hin[i] = obs::hash_lwe(in[i], n);
             uint64_t gen0 = g.monitors ? obs::hash_generator() : 0;
-            LweSample *out = new_gate_bootstrapping_ciphertext(kc->params);
+            // in-place update (acc = GATE(acc, ...)): the output wire is one of the input wires and the public API is called with
+            // result aliasing that input, exactly as a netlist evaluator that updates a register in place would
+            int inplace_i = -1;
+            for (int i = 0; i < ar; i++) if (iw[i] == w && !tmp[i] && ps.wires[w].ct) { inplace_i = i; break; }
+            LweSample *out = inplace_i >= 0 ? ps.wires[w].ct : new_gate_bootstrapping_ciphertext(kc->params);
+            if (inplace_i >= 0 && pass == 0) r.probes.add(fmt("inplace_result_is_input_%d", inplace_i));
             {
                 ObserverScope os(gate_observer, &g);
                 watch_begin();
@@ -403,7 +408,7 @@ static void exec_gates(const Plan &p, RunResult &r) {
             }
             if (g.monitors) {
                 for (int i = 0; i < ar; i++)
-                    if (obs::hash_lwe(in[i], n) != hin[i]) r.v.raise("input-modified", "C15.gate-input", fmt("gate %s modified input %d", gate_name(gt), i), (int) oi);
+                    if (in[i] != out && obs::hash_lwe(in[i], n) != hin[i]) r.v.raise("input-modified", "C15.gate-input", fmt("gate %s modified input %d", gate_name(gt), i), (int) oi);
                 if (obs::hash_generator() != gen0) r.v.raise("generator-advanced", "C15.generator", fmt("gate %s changed the state of the library generator", gate_name(gt)), (int) oi);
                 bool full_key_hash = !is_default || oi == p.ops.size() - 1;
                 if (full_key_hash && ck == kc->ck && obs::hash_cloud(ck) != cloud_hash0)
@@ -412,7 +417,7 @@ static void exec_gates(const Plan &p, RunResult &r) {
             }
             // aliasing patterns of the public gate API (C15): same bytes as the non-aliased call
             int alias = (int) o.geti("alias");
-            if (alias && g.monitors && ar >= 1 && !r.v.set) {
+            if (alias && g.monitors && ar >= 1 && !r.v.set && inplace_i < 0) {
                 LweSample *c[3];
                 for (int i = 0; i < 3; i++) { c[i] = new_gate_bootstrapping_ciphertext(kc->params); if (in[i]) lweCopy(c[i], in[i], inp); }
                 LweSample *res = nullptr; const LweSample *xa = c[0], *xb = c[1], *xc = c[2];
@@ -446,7 +451,7 @@ static void exec_gates(const Plan &p, RunResult &r) {
             }
             // legal faults of pass 1
             if (pass == 1) {
-                if (o.geti("dup")) {   // F-dup: the request is delivered twice
+                if (o.geti("dup") && inplace_i < 0) {   // F-dup: the request is delivered twice (not for in-place updates: the input is gone)
                     LweSample *out2 = new_gate_bootstrapping_ciphertext(kc->params);
                     gate_apply(gt, out2, in[0], in[1], in[2], cst, ck);
                     if (obs::hash_lwe(out2, n) != obs::hash_lwe(out, n)) r.v.raise("nondeterministic", "C06.dup", fmt("gate %s evaluated twice on the same inputs gave different ciphertexts", gate_name(gt)), (int) oi);
@@ -489,13 +494,14 @@ static void exec_gates(const Plan &p, RunResult &r) {
                         const char *gc = gt == G_MUX ? "mux" : "bin";
                         const char *ic = anymax ? "max" : (depth >= 50 ? "deep" : (anyboot ? "boot" : "fresh"));
                         double e = t2d(err);
-                        for (std::string key : {std::string(gc), std::string(gc) + "." + ic}) {
+                        std::string kp = "K" + std::to_string(kc->kseed % 100000) + ".";   // per key: the property quantifies over key seeds
+                        for (std::string key : {kp + gc, kp + gc + "." + ic}) {
                             r.stats[key + ".n"] += 1; r.stats[key + ".s1"] += e; r.stats[key + ".s2"] += e * e; r.stats[key + ".s4"] += e * e * e * e;
                             double &mx = r.stats[key + ".max"]; mx = std::max(mx, std::fabs(e));
                         }
                         if (depth > 0 && gt != G_MUX) {   // regression of e^2 against depth, binary gates only (MUX has its own variance)
-                            r.stats["chain.n"] += 1; r.stats["chain.sd"] += depth; r.stats["chain.sdd"] += (double) depth * depth; r.stats["chain.se"] += e * e;
-                            r.stats["chain.sde"] += depth * e * e; r.stats["chain.s4"] += e * e * e * e;
+                            r.stats[kp + "chain.n"] += 1; r.stats[kp + "chain.sd"] += depth; r.stats[kp + "chain.sdd"] += (double) depth * depth; r.stats[kp + "chain.se"] += e * e;
+                            r.stats[kp + "chain.sde"] += depth * e * e; r.stats[kp + "chain.s4"] += e * e * e * e;
                         }
                     }
                 }
@@ -507,7 +513,7 @@ static void exec_gates(const Plan &p, RunResult &r) {
             r.steps++;
             // commit
             Wire1 &W = ps.wires[w];
-            if (W.ct) delete_gate_bootstrapping_ciphertext(W.ct);
+            if (W.ct && W.ct != out) delete_gate_bootstrapping_ciphertext(W.ct);
             W.ct = out; W.bit = expect; W.depth = boot ? depth + 1 : depth; W.booted = boot || anyboot; W.maxnoise = false;
             for (auto *t : tmp) if (t) delete_gate_bootstrapping_ciphertext(t);
         }
